@@ -40,9 +40,11 @@ def copied (ρ : Nat → Nat) (c : Comp) : Comp where
   trainHead := c.applyHead
   trainTail := c.applyTail
 
-/-- the composition of `pipeline >> PerfTrackScore` -/
-def perfOf (ρ : Nat → Nat) (c : Comp) : Except Err Comp :=
-  if c.isChain then .ok (c.copied ρ) else .error .topology
+/-- the composition of `pipeline >> PerfTrackScore`.  `closed`: the composition is closed by a sink
+(`Composition.Builder.build(sink)`): the sink's segment supplies an explicit tail, nothing is retraced and a
+branching apply segment is accepted; without a sink `Segment.extend()` retraces the tail and refuses a fork. -/
+def perfOf (ρ : Nat → Nat) (closed : Bool) (c : Comp) : Except Err Comp :=
+  if closed || c.isChain then .ok (c.copied ρ) else .error .topology
 
 /-- every uid the composition mentions -/
 def uids (c : Comp) : List Nat :=
